@@ -1,7 +1,7 @@
 // sched drives the REAL scheduler package (PoA v1, PoA v2, PoS) for C05 and records what it answered, together with
 // the facts the specification leaves open, as an ndjson trace for specs/sched/Trace_Scheduler.tla.
 //
-//	sched -out <dir> -seed S -mode exh|large [-maxn N] [-T t] [-cases K] [-v1pn K]
+//	sched -out <dir> -seed S -mode exh|large|seed [-maxn N] [-T t] [-cases K] [-v1pn K] [-runs R] [-si I]
 //
 // exh:   every list size 1..maxn, every active pattern, every order of the listed proposers (a (seed, parentNum) is
 //
@@ -1142,7 +1142,9 @@ func parseWvs(s string) [][]uint64 {
 func main() {
 	out := flag.String("out", "", "output directory")
 	seed := flag.Int64("seed", 1, "seed")
-	mode := flag.String("mode", "exh", "exh | large")
+	mode := flag.String("mode", "exh", "exh | large | seed")
+	runs := flag.Int("runs", 6, "seed: number of repositories")
+	si := flag.Uint("si", 4, "seed: thor.SeederInterval")
 	maxn := flag.Int("maxn", 4, "exh: maximal list size")
 	T := flag.Uint64("T", 2, "exh: block interval")
 	v1pn := flag.Int("v1pn", 12, "exh: parent numbers per list size for PoA v1")
@@ -1157,6 +1159,18 @@ func main() {
 	}
 	rc := &recorder{nontrivial: map[string]bool{}, sizes: map[int]int{}, kinds: map[string]int{}, mm: []mismatch{}, panics: []mismatch{}}
 	var est []exhStat
+	if *mode == "seed" {
+		st := seedMode(&rc.w, *seed, *runs, uint32(*si))
+		if err := rc.w.WriteFile(filepath.Join(*out, "trace.ndjson")); err != nil {
+			die("%v", err)
+		}
+		b, _ := json.MarshalIndent(st, "", " ")
+		if err := os.WriteFile(filepath.Join(*out, "summary.json"), b, 0o644); err != nil {
+			die("%v", err)
+		}
+		fmt.Printf("{\"runs\":%d,\"events\":%d,\"errors\":%d}\n", st.Runs, len(rc.w.Events), len(st.Errors))
+		return
+	}
 	switch *mode {
 	case "exh":
 		est = rc.exhaustive(*seed, *maxn, *T, *v1pn, parseWvs(*wvs))
